@@ -402,6 +402,17 @@ def step (st : St) (ws : List String) : St × String :=
     match parseStrWord p with
     | some p => (st, idx ++ " " ++ showJ (J.arr ((jpParse p).map J.str)))
     | none => (st, idx ++ " bad-op")
+  | ["jpd", idx, d, sfx] =>
+    match d.toNat?, parseStrWord sfx with
+    | some d, some sfx =>
+      let leaf : J := .obj [("target".toList, .num "1"), ("k".toList, .arr [.num "0", .num "1"])]
+      let names := (List.range d).map fun i => ("d" ++ toString i).toList
+      let doc := names.foldr (fun nm v => J.obj [(nm, v)]) leaf
+      let p := (names.foldr (fun nm acc => '/' :: (nm ++ acc)) sfx)
+      (st, joinSp [idx, (match jpEval doc p with
+        | some r => "some " ++ showJ r
+        | none => "none"), toString (jpParse p).length])
+    | _, _ => (st, idx ++ " bad-op")
   | ["jpe", idx, j, p] =>
     match J.parse j, parseStrWord p with
     | some v, some p =>
